@@ -11,6 +11,16 @@ Driver for C10.  ops (`<T>` = rayon pool size, `<mode>` = `i` for `i64` weights,
 * `reuse2 <T> <mode> <w> <h> <iterA> <iterB> <n> <a_0> … <a_{n-1}> <b_0> … <b_{n-1}>` (and `reuse3`)
   → `ids <id…>` of `rcb(B, iterB)`: the implementation writes it into the buffer a previous call
   `rcb(A, iterA)` has filled; the model has no history, it answers for `B` alone
+* `rcbs2 <T> <e> <w> <h> <iter> <n> <tok…>` / `rcbs3 …`: `f64` weights `k·2^e` (tok = `k`, or `-0` = the weight
+  -0.0, which the model reads as 0) → `ids <id…>`.  The model works in units of `2^e` (all sums are exact by
+  construction of the cases); the two thresholds are evaluated with `Float` at the real magnitude
+  (subnormal, near overflow) and converted to units exactly.  No `Bracket` check here: the ids are
+  predicted whatever the bracket; the balance theorems are not claimed at these magnitudes.
+* `meds <T> <e> <total_k> <n> <tok…>` → `med <position> <left_weight / 2^e>`
+* `rcbt2 <T> <type> <w> <h> <iter> <n> <w_0> …` / `rcbt3 …`: weights of another admitted type; integer types
+  are the `i` instance, `f32` / `f64box` the `f` instance → `ids <id…>`
+* `ctx2 <kind> <T> <mode> <w> <h> <iter> <copies> <n> <w_0> …` / `ctx3 …`: calling context (the model has
+  none) → `ids <id…>` of the plain call with pool size `T`
 * `pos2 <w> <h> <i>` → `pos x y`, `idx2 <w> <h> <x> <y>` → `idx i`, `pos3 <w> <h> <d> <i>`,
   `idx3 <w> <h> <d> <x> <y> <z>`, `len2 <w> <h>`, `len3 <w> <h> <d>` → `len n`
 -/
@@ -42,6 +52,52 @@ def checkedBracket (mode : String) (total : Int) : Option (Int × Int) :=
   match rawBracket mode total with
   | none => none
   | some (a, b) => if Bracket total a b then some (a, b) else none
+
+
+/-- Thresholds at the real magnitude for `f64` weights `k·2^e`, in units of `2^e`:
+`p·2^e < lo ↔ p < ⌈lo/2^e⌉`, `hi < p·2^e ↔ ⌊hi/2^e⌋ < p` (scaling by a power of two is exact). -/
+def scaledBracket (e : Int) (total : Int) : Option (Int × Int) :=
+  if total.natAbs ≥ 2 ^ 53 then none else
+  let f : Float := Float.scaleB (Float.ofInt total) e
+  if f.isNaN || f.isInf then none else
+  let ideal : Float := f / 2.0
+  let lo := ideal * (1.0 - tolerance)
+  let hi := ideal * (1.0 + tolerance)
+  some ((Float.scaleB lo (-e)).ceil.toInt64.toInt, (Float.scaleB hi (-e)).floor.toInt64.toInt)
+
+/-- Is `k·2^e` a finite `f64` (mirror of the harness's `ldexp_exact`)? -/
+def representable (k : Nat) (e : Int) : Bool :=
+  if k = 0 then true
+  else if k ≥ 2 ^ 53 then false
+  else
+    let ex : Int := e + (Nat.log2 k : Int)
+    if ex > 1023 then false
+    else if ex ≥ -1022 then true
+    else e + 1074 ≥ 0
+
+def parseTok? (s : String) : Option Int :=
+  if s == "-0" then some 0 else
+  match parseInt? s with
+  | some k => if 0 ≤ k && k < 2 ^ 53 then some k else none
+  | none => none
+
+def typeMode? (ty : String) : Option (String × Int) :=
+  match ty with
+  | "u8" => some ("i", 255)
+  | "i16" => some ("i", 32767)
+  | "u16" => some ("i", 65535)
+  | "i32" => some ("i", 2147483647)
+  | "u32" => some ("i", 4294967295)
+  | "u64" => some ("i", 2 ^ 50)
+  | "usize" => some ("i", 2 ^ 50)
+  | "isize" => some ("i", 2 ^ 50)
+  | "i64arr" => some ("i", 2 ^ 50)
+  | "f32" => some ("f", 100000)
+  | "f64box" => some ("f", 2 ^ 50)
+  | _ => none
+
+def scaledOk (e : Int) (ks : List Int) : Bool :=
+  ks.sum < 2 ^ 53 && representable ks.sum.toNat e && ks.all (fun k => representable k.toNat e)
 
 def showAbort : Abort → String
   | .sliceIndex => "panic slice index"
@@ -125,6 +181,120 @@ def handle (toks : List String) : String :=
           else none
         | _, _ => none
       | [] => none) with
+    | none => "bad-op"
+    | some (t, mode, w, h, d, iter, ws) =>
+      showIds (rcb3 {} t (checkedBracket mode) w h d ws.toArray ws.length iter)
+  | "rcbs2" :: t :: e :: w :: h :: iter :: n :: rest =>
+    match (do
+      let t ← parseNat? t
+      let e ← parseInt? e
+      let w ← parseNat? w
+      let h ← parseNat? h
+      let iter ← parseNat? iter
+      let n ← parseNat? n
+      let (ks, rest) ← takeParsed parseTok? n rest
+      if rest.isEmpty && w ≥ 1 && h ≥ 1 && t ≥ 1 && t ≤ 64 && w * h = n && scaledOk e ks then
+        some (t, e, w, h, iter, ks)
+      else none) with
+    | none => "bad-op"
+    | some (t, e, w, h, iter, ks) => showIds (rcb2 {} t (scaledBracket e) w h ks.toArray ks.length iter)
+  | "rcbs3" :: t :: e :: w :: h :: d :: iter :: n :: rest =>
+    match (do
+      let t ← parseNat? t
+      let e ← parseInt? e
+      let w ← parseNat? w
+      let h ← parseNat? h
+      let d ← parseNat? d
+      let iter ← parseNat? iter
+      let n ← parseNat? n
+      let (ks, rest) ← takeParsed parseTok? n rest
+      if rest.isEmpty && w ≥ 1 && h ≥ 1 && d ≥ 1 && t ≥ 1 && t ≤ 64 && w * h * d = n && scaledOk e ks then
+        some (t, e, w, h, d, iter, ks)
+      else none) with
+    | none => "bad-op"
+    | some (t, e, w, h, d, iter, ks) => showIds (rcb3 {} t (scaledBracket e) w h d ks.toArray ks.length iter)
+  | "meds" :: t :: e :: total :: n :: rest =>
+    match (do
+      let t ← parseNat? t
+      let e ← parseInt? e
+      let total ← parseInt? total
+      let n ← parseNat? n
+      let (ks, rest) ← takeParsed parseTok? n rest
+      if rest.isEmpty && t ≥ 1 && t ≤ 64 && 0 ≤ total && total < 2 ^ 53 && representable total.toNat e
+          && scaledOk e ks then
+        some (t, e, total, ks)
+      else none) with
+    | none => "bad-op"
+    | some (t, e, total, ks) =>
+      match scaledBracket e total with
+      | none => "skip total-not-finite"
+      | some (a, b) =>
+        match weightedMedian {} t ks a b with
+        | .ok (p, l) => "med " ++ toString p ++ " " ++ toString l
+        | .error err => showAbort err
+  | "rcbt2" :: t :: ty :: w :: h :: iter :: n :: rest =>
+    match (do
+      let t ← parseNat? t
+      let (mode, limit) ← typeMode? ty
+      let w ← parseNat? w
+      let h ← parseNat? h
+      let iter ← parseNat? iter
+      let n ← parseNat? n
+      let (ws, rest) ← takeParsed parseInt? n rest
+      if rest.isEmpty && w ≥ 1 && h ≥ 1 && t ≥ 1 && t ≤ 64 && w * h = n && ws.all (0 ≤ ·) && ws.sum ≤ limit
+          && (ty != "i64arr" || n = 4 || n = 6 || n = 8 || n = 9) then
+        some (t, mode, w, h, iter, ws)
+      else none) with
+    | none => "bad-op"
+    | some (t, mode, w, h, iter, ws) => showIds (rcb2 {} t (checkedBracket mode) w h ws.toArray ws.length iter)
+  | "rcbt3" :: t :: ty :: w :: h :: d :: iter :: n :: rest =>
+    match (do
+      let t ← parseNat? t
+      let (mode, limit) ← typeMode? ty
+      let w ← parseNat? w
+      let h ← parseNat? h
+      let d ← parseNat? d
+      let iter ← parseNat? iter
+      let n ← parseNat? n
+      let (ws, rest) ← takeParsed parseInt? n rest
+      if rest.isEmpty && w ≥ 1 && h ≥ 1 && d ≥ 1 && t ≥ 1 && t ≤ 64 && w * h * d = n && ws.all (0 ≤ ·)
+          && ws.sum ≤ limit && (ty != "i64arr" || n = 4 || n = 6 || n = 8 || n = 9) then
+        some (t, mode, w, h, d, iter, ws)
+      else none) with
+    | none => "bad-op"
+    | some (t, mode, w, h, d, iter, ws) =>
+      showIds (rcb3 {} t (checkedBracket mode) w h d ws.toArray ws.length iter)
+  | "ctx2" :: kind :: t :: mode :: w :: h :: iter :: copies :: n :: rest =>
+    match (do
+      let t ← parseNat? t
+      let mode ← parseMode? mode
+      let w ← parseNat? w
+      let h ← parseNat? h
+      let iter ← parseNat? iter
+      let copies ← parseNat? copies
+      let n ← parseNat? n
+      let (ws, rest) ← takeParsed parseInt? n rest
+      if rest.isEmpty && w ≥ 1 && h ≥ 1 && t ≥ 1 && t ≤ 64 && w * h = n && ws.all (0 ≤ ·)
+          && copies ≥ 1 && copies ≤ 64 && ["global", "join", "scope", "many"].contains kind then
+        some (t, mode, w, h, iter, ws)
+      else none) with
+    | none => "bad-op"
+    | some (t, mode, w, h, iter, ws) => showIds (rcb2 {} t (checkedBracket mode) w h ws.toArray ws.length iter)
+  | "ctx3" :: kind :: t :: mode :: w :: h :: d :: iter :: copies :: n :: rest =>
+    match (do
+      let t ← parseNat? t
+      let mode ← parseMode? mode
+      let w ← parseNat? w
+      let h ← parseNat? h
+      let d ← parseNat? d
+      let iter ← parseNat? iter
+      let copies ← parseNat? copies
+      let n ← parseNat? n
+      let (ws, rest) ← takeParsed parseInt? n rest
+      if rest.isEmpty && w ≥ 1 && h ≥ 1 && d ≥ 1 && t ≥ 1 && t ≤ 64 && w * h * d = n && ws.all (0 ≤ ·)
+          && copies ≥ 1 && copies ≤ 64 && ["global", "join", "scope", "many"].contains kind then
+        some (t, mode, w, h, d, iter, ws)
+      else none) with
     | none => "bad-op"
     | some (t, mode, w, h, d, iter, ws) =>
       showIds (rcb3 {} t (checkedBracket mode) w h d ws.toArray ws.length iter)
